@@ -68,6 +68,12 @@ class Dataset:
                 c0 = float(tensor0[k])
                 self.polys[k] = (c0, c0 * float(rng.uniform(8.0, 16.0)), c0 * float(rng.uniform(-20.0, 20.0)), c0 * float(rng.uniform(-30.0, 30.0)))
         self.cellmass = float(rng.uniform(15.0, 30.0)) * self.nat
+        # the static table has its own volume grid (different points, possibly a different count) and its own header V_0
+        self.nv_static = int(self.nv + rng.integers(-1, 3))
+        self.static_volumes = numpy.linspace(self.volumes[0] * float(rng.uniform(0.97, 1.03)), self.volumes[-1] * float(rng.uniform(0.97, 1.03)),
+                                             max(self.nv_static, 5))
+        self.nv_static = len(self.static_volumes)
+        self.vref = float(self.v0 * rng.uniform(0.9, 0.98))
         # ---- lattice parameters
         s = rng.dirichlet([6.0, 6.0, 6.0])
         while s.min() < 0.2 or min(abs(s[0] - s[1]), abs(s[0] - s[2]), abs(s[1] - s[2])) < 0.03:
@@ -123,12 +129,12 @@ class Dataset:
         (d / "input01").write_text("\n".join(lines) + "\n")
         cols = table_cols or self.keys
         names = [("C%d%d" if upper else "c%d%d") % k for k in cols]
-        t = ["synthetic static table", f"{self.v0:.8f} {self.nv} {self.cellmass:.6f}", "V " + " ".join(names)]
-        for v in self.volumes:
+        t = ["synthetic static table", f"{self.vref:.8f} {self.nv_static} {self.cellmass:.6f}", "V " + " ".join(names)]
+        for v in self.static_volumes:
             t.append(f"{v:.10f} " + " ".join(f"{self.static_gpa(k, numpy.array([v]))[0]:.10f}" for k in cols))
         if self.lattice:
             t.append("lattice parameters")
-            for row in self.axes(self.volumes):
+            for row in self.axes(self.static_volumes):
                 t.append(" ".join(f"{x:.12f}" for x in row))
         (d / "elast.dat").write_text("\n".join(t) + "\n")
         cfg = self.config()
